@@ -135,6 +135,12 @@ Theorem C04_update_subtree_result_partial : forall h g old new, WF h g -> guard_
 Proof. exact update_subtree_facts. Qed.
 Print Assumptions C04_update_subtree_result_partial.
 
+(* the booleans the driver reads per observed step are agree and holds_b *)
+Theorem C04_check_is_agree_and_holds : forall s o ob, exists rest,
+  check s o ob = (agree s o ob && negb (declined s o && in_domain s o)) :: holds_b s o ob :: rest.
+Proof. exact check_spec. Qed.
+Print Assumptions C04_check_is_agree_and_holds.
+
 (* ---------------------------------------------------------------- T1.5  GraphDelegate *)
 Theorem C04_delegate_forwards : forall s o, gd_run_op s o = run_op s o.
 Proof. reflexivity. Qed.
